@@ -297,6 +297,14 @@ func (s *Schema) eval(t *Type, v *idl.Value) V {
 		if v.Kind == idl.VInt {
 			return v.Int
 		}
+		if v.Kind == idl.VIdent && v.RefEnum != nil {
+			// an enum member where an integer is expected: its number
+			for _, ev := range v.RefEnum.Values {
+				if ev.Name == v.RefVal {
+					return ev.Value
+				}
+			}
+		}
 	case Double:
 		switch v.Kind {
 		case idl.VInt:
